@@ -225,6 +225,7 @@ class Automaton:
         self.raises = []                 # dicts
         self.decisions = {}              # decision id -> {"line":, "text":, "pre": (a1, a2), "branches": {label: {"post": (a1, a2), "node": n}}}
         self.calls = []                  # records of constructor calls for shape.py
+        self.peek2 = []                  # look-ahead knowledge at every peek(2): the first token must not be EOF (else nothing follows it)
         self.callsites = []              # {"edge": index of the first edge of the call, "callee", "args", "la1": look-ahead set at the call}
         self.notes = []
 
@@ -822,6 +823,9 @@ class Extractor:
             if count not in (1, 2):
                 raise Unsupported("peek(%r)" % count)
             st = st.copy()
+            if count == 2:
+                self.ensure(st, 1)
+                self.aut.peek2.append({"line": line, "la1": st.toks.get(st.la[0])})
             tid = self.ensure(st, count)
             return [(st, node, TokV(tid))]
         if name == "advance":
